@@ -12,7 +12,8 @@ EVERY assignment
                foreign-blocks (v3 share whose blocks and block hash tree are those of the v4 share:
                self-consistent, but not under the signed root hash)] }
 is written to real servers (2-of-3 also with a SECOND copy of share 0, in any of the four versions, on
-a fourth server: more share instances than N), then   check(verify in {F,T})  ->  repair(force in {F,T})   or
+a fourth server: more share instances than N; and a 2-of-6 file with every arrangement of two shares each of v3,
+v3' and v2: THREE recoverable versions at once), then   check(verify in {F,T})  ->  repair(force in {F,T})   or
 check_and_repair(verify) is run on a node built from the write-cap (thorough: check also under
 every schedule with <= 1 deviation).
 Oracle from ground truth (independent parser of the files on disk):
@@ -226,7 +227,7 @@ def _execute(case, prefix, seed):
     fmt, n, assign, verify, mode = case["fmt"], case["n"], case["assign"], case["verify"], case["mode"]
     S = case.get("S") or n
     extra = case.get("extra")
-    prep = prepare(fmt, n, seed, S)
+    prep = prepare(fmt, n, seed + 1000 * case.get("pseed", 0), S)      # pseed: another file (other keys, contents, hashes)
     si = prep["si"]
     ch = grid.Chooser(prefix)
     boot.urandom.reset(seed, b"c14-exec")
@@ -475,6 +476,26 @@ def run(tier, seed):
                 sp = spread_cases(fmt, 4, 7, ["v3", "v2"], ("noforce", "car") if tier == "quick" else ("noforce", "force", "car"), (False,) if tier == "quick" else (False, True))
                 cases += sp
                 desc.append("%s 2-of-4 on 7 servers: C(7,4) placements over the permuted list x {v3,v2}^4 x modes = %d" % (fmt, len(sp)))
+        if d == 0:
+            # THREE recoverable versions at once: 2-of-6 on 6 servers, every arrangement of two shares each of
+            # v3, v3' (competing, same seqnum) and v2 (older) [thorough: also with v4 / missing in place of v2]
+            for fmt in (("SDMF",) if tier == "quick" else ("SDMF", "MDMF")):
+                # (several files: the order in which the code under test meets the versions of a servermap is a set
+                # order over their hashes, so it differs from file to file)
+                pseeds = tuple(range(10)) if tier == "quick" else tuple(range(14))
+                for ps in pseeds:
+                    prepare(fmt, 6, seed + 1000 * ps)
+                trios = [("v3", "v3x", "v2")] if tier == "quick" else [("v3", "v3x", "v2"), ("v3", "v3x", "v4"), ("v3", "v3x", "missing")]
+                six = []
+                for trio in trios:
+                    for combo in sorted(set(itertools.permutations(trio * 2))):
+                        for mode in (("noforce", "car") if tier == "quick" else ("noforce", "force", "car")):
+                            for ps in (pseeds if trio[2] == "v2" else (0,)):
+                                if ps and combo != tuple(sorted(combo)) and combo != tuple(sorted(combo, reverse=True)):
+                                    continue          # the other files: two arrangements each
+                                six.append({"fmt": fmt, "n": 6, "assign": list(combo), "verify": False, "mode": mode, "cpu": "sync", "pseed": ps})
+                cases += six
+                desc.append("%s 2-of-6: every arrangement of two shares each of three versions x modes = %d" % (fmt, len(six)))
         res.merge(common.pmap(chunk, cases, (seed, d), chunks=max(1, min(len(cases), common.NWORKERS * 8))))
     execs = res.counts.get("executions", 0)
     cov = {
